@@ -142,6 +142,33 @@ def fromPath (w : World) (n : Nat) (items : List Item) : Option (Except Err St) 
   | some (.error e) => some (.error e)
   | some (.ok s) => parseLoop w n s
 
+/-- number of `.co` files an import path brings in -/
+def nFiles (w : World) (p : String) : Nat :=
+  match w.resolve p with
+  | some (_, items) => (coFiles items).length
+  | none => 0
+
+/-- files still to come: those of the paths of `U` that are not imported yet -/
+def pend (w : World) (k : List String) : List String → Nat
+  | [] => 0
+  | x :: U => (if x ∈ k then 0 else nFiles w x) + pend w k U
+
+/-- bound on the final number of files -/
+def total (w : World) (U : List String) (s : St) : Nat := s.files.length + pend w s.keys U
+
+/-- decidable form of the hypotheses of `config_load_terminates` for a world given by tables, with `U` = the listed paths
+    (evaluated by the driver on the world read off the real file tree) -/
+def closedItems (w : World) (U : List String) (items : List Item) : Bool :=
+  (ymlPaths items).all (fun p => U.contains p) &&
+    (coFiles items).all fun f => match w.parse f with
+      | some ips => ips.all (fun p => U.contains p)
+      | none => true
+
+def closedWorld (w : World) (U : List String) (init : List Item) : Bool :=
+  closedItems w U init && U.all fun p => match w.resolve p with
+    | some (_, items) => closedItems w U items
+    | none => true
+
 /-- the `import_paths` join of the seeded change C13-d (list comprehension filtered against the paths known BEFORE the join):
     kept as a definition so that the difference is a statement (`Theorems/C13.lean: seeded_join_never_returns`) -/
 def joinFilter (dest add : List String) : List String := dest ++ add.filter (fun p => !(dest.contains p))
